@@ -1,6 +1,7 @@
 #!/bin/sh
-# tools/confirm_seed.sh <ID> <seed-dir> : confirm a seeded change in a scratch worktree
+# tools/confirm_seed.sh <seed> <src-dir> : confirm a seeded change in a scratch worktree
 # (demo passes on original, fails with the change; full unit suite passes with it).
+# <seed> = property id, optionally followed by a wave letter (C05b).
 ID=$1; SRC=$2; WT=/tmp/cs-$ID; OUT=/verif/seeded/$ID
 mkdir -p $OUT
 cp $SRC/patch.diff $OUT/patch.diff
@@ -8,14 +9,16 @@ DEMO=$(ls $SRC/test_demo.py $SRC/demo.py 2>/dev/null | head -1)
 cp $DEMO $OUT/
 [ -f $SRC/notes.md ] && cp $SRC/notes.md $OUT/notes.md
 LOG=$OUT/confirm.log; : > $LOG
-git -C /repo worktree add -q $WT HEAD || exit 2
+git -C /repo worktree add -q --detach $WT HEAD || exit 2
 cd $WT
+export PYTHONPATH=$WT
 rundemo() {
   case "$DEMO" in
     *test_demo.py) /venv/bin/python -m pytest -q -p no:cacheprovider -x --timeout=900 $DEMO ;;
     *) /venv/bin/python $DEMO ;;
   esac
 }
+echo "== imported tree: $(/venv/bin/python -c 'import mistral; print(mistral.__file__)')" >> $LOG
 echo "== demo on original tree" >> $LOG
 rundemo >> $LOG 2>&1; A=$?
 echo "exit=$A" >> $LOG
@@ -24,7 +27,7 @@ echo "== demo with the change" >> $LOG
 rundemo >> $LOG 2>&1; B=$?
 echo "exit=$B" >> $LOG
 echo "== full unit suite with the change" >> $LOG
-/venv/bin/python -m pytest -q -p no:cacheprovider -n ${NP:-12} --timeout=900 mistral/tests/unit 2>&1 | tail -8 >> $LOG
+/venv/bin/python -m pytest -q -p no:cacheprovider -n ${NP:-8} --timeout=900 mistral/tests/unit 2>&1 | tail -8 >> $LOG
 FAILED=$(grep '^FAILED mistral' $LOG | awk '{print $2}' | sort -u)
 if [ -n "$FAILED" ]; then
   echo "== re-running the failed tests serially (timing-sensitive tests flake under load)" >> $LOG
